@@ -147,7 +147,7 @@ func (e *Engine) VerifyFunc(key string) {
 			fr.lets[l.Name] = v
 		}()
 	}
-	for _, r := range fc.eff.requires {
+	for _, r := range append(append([]effClause(nil), fc.eff.requires...), fc.eff.assumes...) {
 		sc := fc.specCtxForClause(st, fr, r)
 		if g := fc.evalBoolClause(sc, r.Clause, ""); g != "" {
 			st.pc = append(st.pc, g)
